@@ -368,17 +368,17 @@ static void run_stream(const struct kind *const *ks, int nf, struct stream *st, 
 
 static void body_big(void)
 {
-	/* frames of exactly the documented limit must be accepted; limit+1 is in the main alphabet */
-	static struct kind big[4] = { {1, 1, 1, (long)WS_LIMIT}, {2, 1, 0, (long)WS_LIMIT}, {1, 0, 1, (long)WS_LIMIT}, {2, 1, 1, (long)WS_LIMIT - 1} };
-	static struct kind tail[3] = { {1, 1, 1, 1}, {0, 1, 1, 2}, {8, 1, 1, 0} };
+	/* a frame of exactly the documented limit must be accepted (limit + 1 is in the main
+	 * alphabet as 'O'); a 10 MiB execution costs seconds here, so only 2 x 2 cases */
+	static struct kind big[2] = { {1, 1, 1, (long)WS_LIMIT}, {2, 1, 0, (long)WS_LIMIT} };
+	static struct kind tail = {1, 1, 1, 1};
 	const struct kind *ks[2]; struct stream st;
-	int a = mc_choose(4, 0, "big"), b = mc_choose(4, 0, "tail"), nf = 1, cut;
+	int a = mc_choose(2, 0, "big"), b = mc_choose(2, 0, "tail"), nf = 1;
 	ks[0] = &big[a];
-	if (b) { ks[1] = &tail[b - 1]; nf = 2; }
+	if (b) { ks[1] = &tail; nf = 2; }
 	describe(ks[0]); if (nf == 2) describe(ks[1]);
 	build_stream(&st, ks, nf);
-	cut = mc_choose(2, 0, "cut-in-header");
-	run_stream(ks, nf, &st, 2, cut ? 3 : -1);
+	run_stream(ks, nf, &st, 2, a ? 3 : -1);        /* the unmasked one with a cut inside its header */
 }
 
 static void body(void)
